@@ -30,10 +30,33 @@ fn parse_sk(text: &str) -> Option<Vec<String>> {
     sv::parse_text(Grammar::Sv, text, false).ok().map(|(t, pp)| skeleton_no_resetall(&t, &pp))
 }
 
-fn compare(a_text: &str, b_text: &str, what: &str, st: &mut Stats) -> Result<bool, Fail> {
+/// One layout accepted, the other rejected: is the rejection an instance of listed finding K3 (the production memo
+/// capacity evicts; the unbounded table accepts under both keys)?
+fn k3_layout(rejected: &str) -> sv::K3Verdict {
+    match sv::pp_plain(rejected) {
+        Ok((t, _)) => sv::k3_explains_rejection(Grammar::Sv, t.text()),
+        Err(_) => sv::K3Verdict::NotExplained,
+    }
+}
+
+fn compare(ctx: &Ctx, a_text: &str, b_text: &str, what: &str, st: &mut Stats) -> Result<bool, Fail> {
     let a = parse_sk(a_text);
     let b = parse_sk(b_text);
     let detail = || json!({"layout_a": a_text, "layout_b": b_text, "transformation": what});
+    if a.is_some() != b.is_some() && ctx.findings.is_known("C12", "K3") {
+        match k3_layout(if a.is_some() { b_text } else { a_text }) {
+            sv::K3Verdict::Explained => {
+                st.known("K3");
+                st.class("one layout rejected at the production memo capacity only (listed finding K3)");
+                return Ok(false);
+            }
+            sv::K3Verdict::Inconclusive => {
+                st.skip("rejection of one layout could not be attributed within the work budget");
+                return Ok(false);
+            }
+            sv::K3Verdict::NotExplained => {}
+        }
+    }
     match (a, b) {
         (Some(x), Some(y)) => {
             if let Some((i, p, q)) = first_diff(&x, &y) {
@@ -103,6 +126,22 @@ impl Prop for C12 {
          subtrees (and the inserted `resetall descriptions) are disregarded. Non-trivial: >= 5 runs replaced and the new runs contain >= 1 comment and >= 1 directive; distinct by digest of both layouts."
             .into()
     }
+    fn witness(&self, _ctx: &Ctx, f: &crate::findings::Finding) -> Result<bool, Fail> {
+        // witness {"kind":"k3_layout","layout_a":…,"layout_b":…}: still fails iff exactly one layout is rejected, in the listed way
+        if f.witness["kind"].as_str() != Some("k3_layout") {
+            return Ok(false);
+        }
+        let a = f.witness["layout_a"].as_str().unwrap_or("");
+        let b = f.witness["layout_b"].as_str().unwrap_or("");
+        let (ra, rb) = (parse_sk(a), parse_sk(b));
+        if ra.is_some() == rb.is_some() {
+            return Ok(false);
+        }
+        match k3_layout(if ra.is_some() { b } else { a }) {
+            sv::K3Verdict::Explained => Ok(true),
+            _ => Err(Fail::new(format!("witness of {}: the layouts differ in acceptance but not in the listed way", f.id), json!({"layout_a": a, "layout_b": b}))),
+        }
+    }
     fn assumptions(&self) -> Vec<String> {
         vec![
             "`pragma is not used as trivia (its expression list is open-ended); a run after an escaped identifier starts with white space; runs next to '/' or '*' start/end with a blank".into(),
@@ -131,9 +170,9 @@ impl Prop for C12 {
                 let mut fb = Feats::default();
                 let (a, mask) = p.render_masked(t, &TriviaCfg::plain(), &mut fa, None, 4);
                 let (b, _) = p.render_masked(t, &cfg, &mut fb, Some(&mask), 2);
-                let ok = compare(&a, &b, "white-space runs replaced", st)?;
+                let ok = compare(ctx, &a, &b, "white-space runs replaced", st)?;
                 let (c, _) = p.render_masked(t, &cfg, &mut fb, Some(&mask), 1);
-                compare(&b, &c, "white-space runs replaced (two rich layouts)", st)?;
+                compare(ctx, &b, &c, "white-space runs replaced (two rich layouts)", st)?;
                 if fb.formfeed > 0 {
                     st.class("layout has form feed");
                 }
@@ -158,7 +197,7 @@ impl Prop for C12 {
                 let mut feats = Feats::default();
                 cfg.define_directives = !f.text.contains('`');
                 let (new, n) = layout::relayout(&text, &runs, t, &cfg, 2, 3, &mut feats);
-                compare(&text, &new, "white-space runs of a corpus file replaced", st)?;
+                compare(ctx, &text, &new, "white-space runs of a corpus file replaced", st)?;
                 if n >= 5 && feats.comments > 0 && feats.directives > 0 {
                     st.nontrivial(digest(new.as_bytes()), || json!({"campaign": "corpus", "file": f.name, "layout_b": clip(&new, 400)}));
                 }
@@ -196,7 +235,7 @@ impl Prop for C12 {
                     pos = *c;
                 }
                 b.push_str(&a[pos..]);
-                let ok = compare(&a, &b, "`resetall placed between top-level descriptions", st)?;
+                let ok = compare(ctx, &a, &b, "`resetall placed between top-level descriptions", st)?;
                 st.nontrivial(digest(b.as_bytes()), || json!({"campaign": "resetall", "accepted": ok, "layout_b": clip(&b, 400)}));
             }
         }
